@@ -40,10 +40,14 @@ class Read(object):
 _SLICE = re.compile(r'SLICE\((?P<buf>[A-Za-z_][A-Za-z0-9_]*);(?P<lo>[^;]*);(?P<hi>.*?)\)(?![^()]*\))')
 
 
-def slice_of(text, buf):
-    """If `text` contains a read of buf: return (lo, hi) for buf[lo:hi] or ('i', 'i+1') for buf[i]; None otherwise."""
+def slice_of(text, buf, held=()):
+    """If `text` contains a read of buf: return (lo, hi) for buf[lo:hi] or ('i', 'i+1') for buf[i]; None otherwise.
+    `held`: texts of octets read (and consumed) earlier that reach this value through a local - an index text among them is the
+    local's value, not a new read, when the value also takes a slice."""
     k = text.find('SLICE(%s;' % buf)
     idx = re.search(r'(?<![A-Za-z0-9_.])%s\[(-?\d+)\]' % re.escape(buf), text)
+    if idx and k >= 0 and idx.group(0) in held:
+        idx = None
     if idx and (k < 0 or idx.start() < k):
         i = int(idx.group(1))
         return (str(i) if i else '', str(i + 1))
@@ -163,17 +167,29 @@ def reader_sequence(state, buf='packet', cls=None, recv='self'):
             if m and ctor is not None and val == ctor.text:
                 ctor.target = target
                 continue
-            if m and slice_of(val, buf) is None:
+            held = [r.text for r in reads if r.width is not None and rhs_names and (r.target in rhs_names or (r.locals & set(rhs_names)))
+                    and not any(r is p for p, _ in pending)]
+            if m and slice_of(val, buf, held) is None:
                 stale(m.group(1), line)
                 reads.append(Read('delegate', target, None, val, line, via=m.group(1)))
                 if aliased:
                     problems.append(('alias-then-consume', '%s consumes from the buffer after %s was aliased to it' % (val, aliased[0]), line))
                 continue
-            sl = slice_of(val, buf)
+            sl = slice_of(val, buf, held)
             if sl is not None:
                 # re-reading the same not-yet-consumed slice (peek) does not start a new field
                 same = [r for r, rs in pending if rs == sl]
                 if same and kind == 'assign':
+                    continue
+                if same and kind == 'store':
+                    # the same not-yet-consumed octets go (also) into this attribute: one read, several targets
+                    r = same[-1]
+                    if r.target is None or not r.target.startswith(recv + '.'):
+                        if r.target:
+                            r.locals.add(r.target)
+                        r.target = target
+                    elif target != r.target:
+                        r.also.append(target)
                     continue
                 r = Read('fixed', target, None, val, line)
                 pending.append((r, sl))
